@@ -105,9 +105,10 @@ def beginFetch (d : DS) (treeSize n : Nat) : DS :=
 
 /-- the regenerated `fetchTail` arithmetic must give the model's start index -/
 def startAgrees (d : DS) (treeSize : Nat) : Option String :=
-  let s0 : Int := if d.cont then treeSize else if Gen.fetchTailNegStart d.cfgStart then treeSize else d.cfgStart
-  let s1 : Int := if Gen.fetchTailBeginWins d.pos s0 then d.pos else s0
-  if s1 != (passStart d.cont d.cfgStart treeSize d.pos : Nat) then some s!"regenerated fetchTail start {s1}, model {passStart d.cont d.cfgStart treeSize d.pos}"
+  -- the statement sequence of fetchTail, regenerated in the code's order
+  let (s1, e1, c1) := Gen.fetchTailRange d.cfgStart d.cfgEnd d.cont treeSize d.pos
+  let want : Int × Int × Bool := (((passStart d.cont d.cfgStart treeSize d.pos : Nat) : Int), (if d.cont then 0 else (d.cfgEnd : Int)), false)
+  if (s1, e1, c1) != want then some s!"regenerated fetchTail range ({s1}, {e1}, continuous={c1}), model ({want.1}, {want.2.1}, false)"
   else none
 
 def handleEvent (d : DS) (toks : List String) : DS × String :=
@@ -195,13 +196,21 @@ def handleEvent (d : DS) (toks : List String) : DS × String :=
          | _, none => fail d s!"add {s} {k}: more batches in flight than submitters")
     | .fetching, _, _ => fail d "bad add line"
     | ph, _, _ => fail d s!"AddSequencedLeaves([{s},+{k})) while no pass is running (phase {repr ph}): the gate was closed or the pass was over"
-  | "addret" :: s :: k :: v :: _ =>
+  | "addret" :: s :: k :: v :: rest =>
     match d.phase, s.toNat?, k.toNat? with
     | .fetching, some s, some k =>
       (match findSub d.ps.subs (s, k) with
        | none => fail d s!"addret {s} {k}: not in flight"
        | some j =>
          if v = "ok" then ok { d with ps := pstep c d.ps (.ack j) }
+         else if v = "partial" then
+           -- the destination refused some leaves of the batch (per-leaf statuses in an OK reply). A submitter that checks
+           -- `rsp.Results` (regenerated flag) fails the batch; one that does not takes the reply for a success.
+           let refused : List Nat := match rest with
+             | r :: _ => (r.splitOn ",").filterMap String.toNat?
+             | [] => []
+           if Gen.addSeqChecksResults then ok { d with ps := pstep c d.ps (.ackPartial j refused) }
+           else ok { d with ps := pstep c d.ps (.ack j) }
          else if v = "quota" then ok { d with ps := pstep c d.ps (.quota j), retried := if c.retryQuota then (s, k) :: d.retried else d.retried }
          else ok { d with ps := pstep c d.ps (.fatal j) })
     | _, _, _ => fail d "addret outside a pass"
